@@ -160,7 +160,18 @@ def regenerate(ctx, names):
             mod = importlib.import_module('tr_' + name.lower())
             text = mod.translate(REPO)
             with BuildLock():
-                write_if_changed(os.path.join(COQ, 'Gen', name + '.v'), text)
+                path = os.path.join(COQ, 'Gen', name + '.v')
+                write_if_changed(path, text)
+                if COQ != os.path.join(VERIF, 'coq'):
+                    # scratch copy of the Coq tree: the compiled files it was seeded with were built against the
+                    # generated files of /repo; when this one differs it must be newer than all of them, so that
+                    # make rebuilds everything that depends on it
+                    try:
+                        same = open(os.path.join(VERIF, 'coq', 'Gen', name + '.v')).read() == text
+                    except OSError:
+                        same = False
+                    if not same:
+                        os.utime(path, None)
             ctx.obligation(ob, True)
             ctx.trusted.append('translator translate/tr_%s.py (Python ast, fail-closed)' % name.lower())
         except TranslateError as e:
